@@ -360,6 +360,10 @@ func (cc *connectUnaryClientConn) Spec() Spec {
 
 func (cc *connectUnaryClientConn) Send(msg any) error {
 	if err := cc.marshaler.Marshal(msg); err != nil {
+		// The request body is the message. If we end the request cleanly now,
+		// the handler reads an empty body - a valid zero message - and runs
+		// with input nobody sent. Break the request instead.
+		cc.duplexCall.SetError(err)
 		return err
 	}
 	return nil // must be a literal nil: nil *Error is a non-nil error
